@@ -9,7 +9,7 @@ import impl
 
 PID = "C12"
 LEAN_MODULES = ["BtcHd.Props.C12"]
-LEAN_MODULES_THOROUGH = ['BtcHd.Props.TrBip39', 'BtcHd.Props.TrPath']
+LEAN_MODULES_THOROUGH = ['BtcHd.Props.TrBip39', 'BtcHd.Props.TrPath', 'BtcHd.Props.TrPaper']
 TRUSTED_BASE = common.CORE_TRUSTED + ["HMAC-SHA512 / SHA-256 / curve are parameters of the theorems"]
 ASSUMPTIONS = ["hmac/hashlib/base64 of CPython are correct (used by the independent BIP85 oracle)"]
 RULE = ("master keys random and boundary; indexes {0,1,2^31-1,random} and {-1,-2^31,2^31,2^32}; all five word counts and "
@@ -221,7 +221,62 @@ def numeric_forms(rng, tier, info):
     info["non_integer_parameter_cases"] = n
 
 
+def refused_then_corrected(rng, tier, info):
+    """sequences on ONE BIP85 object in which a refused request (parameter of the wrong type or out of range, bad
+    index) is directly followed by the corrected request and by requests of the neighbouring applications: a refusal
+    must leave nothing behind.  Every answered request must be the stateless answer."""
+    k = rng.randrange(1, N)
+    chain = bytes(rng.getrandbits(8) for _ in range(32))
+    spec = "P:%s:%s:0:0:0:none" % (hx(k.to_bytes(32, "big")), hx(chain))
+    n = 0
+    seqs = []
+    for app, param in (("hex", 32), ("hex", 16), ("pwd", 21), ("mnemonic", 24), ("mnemonic", 12), ("wif", 0), ("xprv", 0)):
+        bad_p = ["f:%d.0" % param, "d:%d" % param, "q:%d/1" % param, "s:" + sx(str(param)), "f:%d.5" % param, "i:%d" % (param + 1000)]
+        bad_i = ["f:0.0", "i:-1", "i:%d" % H, "s:" + sx("0"), "q:0/1"]
+        for _ in range(2 if tier == "quick" else 12):
+            first = rng.choice([("wif", "i:0", "i:0"), ("hex", "i:64", "i:1"), ("xprv", "i:0", "i:2"), (app, "i:%d" % param, "i:3")])
+            if app in ("wif", "xprv") or rng.random() < 0.4:
+                refused = (app, "i:%d" % param, rng.choice(bad_i))
+            else:
+                refused = (app, rng.choice(bad_p), "i:0")
+            seqs.append([first, refused, (app, "i:%d" % param, "i:0"), (app, "i:%d" % param, "i:5"), first])
+    for sq in seqs:
+        line = "bip85_seq %s %s" % (spec, ";".join(",".join(r) for r in sq))
+        got = impl.run(line)
+        n += 1
+        if not got.startswith("ok "):
+            yield line, "request sequence on one BIP85 object could not be run"
+            continue
+        for r, o in zip(sq, got[3:].split(" ; ")):
+            app, pt, it = r
+            pv, iv = impl.pyvalue(pt), impl.pyvalue(it)
+            plain = pt.startswith("i:") and it.startswith("i:")
+            want = None
+            if plain:
+                try:
+                    want = indep(app, k, chain, pv, iv)
+                except Exception:
+                    want = None
+            if o == "err":
+                if plain and want is not None and 0 <= iv < H:
+                    yield line, "valid BIP85 request %s refused after a refused request on the same object" % (r,)
+                    break
+                continue
+            if want is None and not plain:
+                try:
+                    ok_int = all(not isinstance(x, (str, bool)) and x == int(x) for x in (pv, iv))
+                    want = indep(app, k, chain, int(pv), int(iv)) if ok_int else None
+                except Exception:
+                    want = None
+            if want is None or unstr(o) != want:
+                yield (line, "BIP85 request %s on an object that has just refused a request is answered with %s, not the "
+                             "specified derivation" % (r, unstr(o)[:40]))
+                break
+    info["refused_then_corrected_sequences"] = n
+
+
 def extra_checks(rng, tier, g, info):
+    yield from refused_then_corrected(rng, tier, info)
     yield from numeric_forms(rng, tier, info)
     yield from _soak(rng, tier, g, info)
 
